@@ -378,6 +378,7 @@ class Ovld:
         self.shortname = name or f"__OVLD{self.id}"
         self.__name__ = name
         self._defns = {}
+        self._codes = {}
         self._locked = False
         self.mixins = []
         self.argument_analysis = ArgumentAnalyzer()
@@ -598,6 +599,16 @@ class Ovld:
         # to find it, if jurigged is used with ovld
         fn._conformer = Conformer(self, orig_fn, fn)
         self.map.register(sig, fn)
+        # The versions of this definition made for earlier builds may still
+        # be running: their call_next continues below this one
+        earlier = self._codes.setdefault(orig_fn, [])
+        for code in earlier:
+            # (code objects are compared by value: a version that came out
+            # the same needs no alias)
+            if code != fn.__code__:
+                self.map.aliases[code] = fn.__code__
+        if fn.__code__ not in earlier:
+            earlier.append(fn.__code__)
         return fn
 
     def register(self, fn=None, priority=0):
